@@ -270,3 +270,10 @@ func (r *Recorder) Write() error {
 	r.written = true
 	return os.WriteFile(base+".json", b, 0o644)
 }
+
+// MustWrite writes the part file and reports a failure to do so loudly.
+func (r *Recorder) MustWrite() {
+	if err := r.Write(); err != nil {
+		fmt.Fprintf(os.Stdout, "\nINFRA property=%s cannot write coverage part: %v\n", r.ID, err)
+	}
+}
